@@ -195,7 +195,8 @@ func (s *store) BeginBatchWrite() storage.BatchWrite {
 	f := func(ctx context.Context) error {
 		return err
 	}
-	b.txn, err = s.getClient().Begin()
+	b.begin = func() (*txnkv.KVTxn, error) { return s.getClient().Begin() }
+	b.txn, err = b.begin()
 	b.list = append(b.list, f)
 	return b
 }
